@@ -651,6 +651,63 @@ class CountingCache:
         self.clears += 1
 
 
+CACHE_MODES = ["ok", "always", "once", "alt", "late"]
+
+
+class FlakyCache:
+    """a decision cache that really stores (a custom AbstractCache in front of a shared / remote store) and whose
+    operations fail as the case says: spec = {"clear": m, "get": m, "set": m, "exc": name} with m one of
+    "ok" | "always" | "once" (the first call only) | "alt" (every other call, starting with the first) | "late" (every
+    call but the first).  `clears` counts the calls of clear(), failed ones included: the engine asks for exactly one
+    flush per installed document whatever the backend answers."""
+
+    def __init__(self, spec):
+        self.spec, self.clears, self.n, self.d = spec, 0, {"clear": 0, "get": 0, "set": 0}, {}
+        self.failed = {"clear": 0, "get": 0, "set": 0}
+        self.lock = threading.Lock()
+
+    def _op(self, name):
+        with self.lock:
+            self.n[name] += 1
+            k, m = self.n[name], self.spec.get(name, "ok")
+            if name == "clear":
+                self.clears += 1
+            bad = m == "always" or (m == "once" and k == 1) or (m == "alt" and k % 2 == 1) or (m == "late" and k > 1)
+            if bad:
+                self.failed[name] += 1
+        if bad:
+            if self.spec.get("exc") == "conn":
+                raise ConnectionError("cache backend unreachable (%s #%d)" % (name, k))
+            raise _mk_exc(self.spec.get("exc", "runtime"), "cache backend: %s #%d failed" % (name, k))
+
+    def get(self, key):
+        self._op("get")
+        return self.d.get(key)
+
+    def set(self, key, value, ttl=None):
+        self._op("set")
+        self.d[key] = value
+
+    def delete(self, key):
+        self.d.pop(key, None)
+
+    def clear(self):
+        self._op("clear")
+        self.d.clear()
+
+
+CACHE_FRACTION = [0.2]      # share of the cases of every family whose Guard gets a FlakyCache (run() sets it per tier)
+
+
+def cache_spec(rng, always=False):
+    """None (the plain counting cache) or the failure plan of a FlakyCache; clear() fails in most plans."""
+    if not always and rng.random() >= CACHE_FRACTION[0]:
+        return None
+    return {"clear": rng.choice(["always", "once", "alt", "late", "always", "alt", "ok"]),
+            "get": rng.choice(["ok", "ok", "always", "alt", "late"]), "set": rng.choice(["ok", "ok", "always", "alt", "once"]),
+            "exc": rng.choice(["conn", "runtime", "timeout", "os", "custom", "key"])}
+
+
 class FakeTime:
     def __init__(self):
         self.now = 0.0
@@ -1032,7 +1089,7 @@ class Setup:
                     raise ValueError(kind)
             self.world.n_ok = lambda k: n_loadable(c, k)
             self.probe = Probe(self.src, self.world, gate)
-            self.cache = CountingCache()
+            self.cache = FlakyCache(c["cache"]) if c.get("cache") else CountingCache()
             self.p0 = doc_obj(c["p0"])
             self.c_p0 = c["p0"]
             self._pids, self._probed = {}, None
@@ -1181,6 +1238,7 @@ def impl_run(c):
             out["snaps"].append(su.snap(res if raised is None else "raised"))
             out["obs"].append(su.src_obs())
         out["final_decisions"] = su.decisions(final=True)
+        out["cache_failed"] = dict(getattr(su.cache, "failed", {}))
         out["final_loadable_doc"] = su.world.loadable_doc()
         out["src_etag_attr"] = getattr(su.src, "_etag", None) if c["kind"][0] == "http" else None
     except Exception as e:  # noqa: BLE001
@@ -1823,7 +1881,7 @@ def yaml_flavour(kind, fl, rng):
 
 
 def make_case(kind, syms, rng, fam, *, il=None, asy=None, p0=None, cfg=None, variant=None, straddle=None,
-              hows=None, det_u=False, validate=None, ns=None, fl_over=None):
+              hows=None, det_u=False, validate=None, ns=None, fl_over=None, cache=None):
     il = rng.random() < 0.5 if il is None else il
     asy = (kind[0] == "gen" and rng.random() < 0.4) if asy is None else asy
     ns = ns_mode(kind, rng) if ns is None else ns
@@ -1851,6 +1909,9 @@ def make_case(kind, syms, rng, fam, *, il=None, asy=None, p0=None, cfg=None, var
     case.update(script=b.script, tail=tail, fam=fam, syms=list(syms))
     if ns:
         case["ns"] = ns
+    spec = cache_spec(rng) if cache is None else cache
+    if spec:
+        case["cache"] = spec        # the Guard's decision cache is a FlakyCache with this failure plan
     return case
 
 
@@ -1954,6 +2015,23 @@ def gen_cases(chk):
             for syms in itertools.product(ns_alpha, repeat=L):
                 if "wnew" in " ".join(syms):
                     cases.append(make_case(kind, syms, rng, "nonser", ns=1.0, cfg=CFGS[len(cases) % 3]))
+    # 1f. the Guard has a decision cache whose backend fails (custom AbstractCache over a shared store): clear() raising
+    #     always / the first time / every other time / from the second time on, with get() / set() failing or not: every
+    #     history to length 2 (thorough: 3) in which a new document is published.  The engine has to go on without the
+    #     cache: a check that installed a document returns True, one that returned False left the engine untouched.
+    cf_alpha = ["wnew", "chk", "frc", "chk~wnew", "wprev"]
+    cf_kinds = [["gen", 0], ["gen", 1], ["file", False], ["http", True], ["s3", 1, None]] + \
+        ([["gen", 2], ["file", True], ["http", False], ["s3", 0, None]] if thorough else [])
+    excs = ["conn", "runtime", "timeout", "os", "custom", "key"]
+    for kind in cf_kinds:
+        for cm in CACHE_MODES[1:]:
+            for L in range(1, (3 if thorough else 2) + 1):
+                for syms in itertools.product(cf_alpha, repeat=L):
+                    if "wnew" in " ".join(syms):
+                        n_ = len(cases)
+                        spec = {"clear": cm, "get": CACHE_MODES[n_ % 5], "set": CACHE_MODES[(n_ // 5) % 5],
+                                "exc": excs[n_ % len(excs)]}
+                        cases.append(make_case(kind, syms, rng, "cachefail", cache=spec, ns=0.0 if n_ % 4 else 0.9))
     # 2. random long histories
     n_long = 4000 if thorough else 600
     for _ in range(n_long):
@@ -2145,6 +2223,7 @@ def impl_run_conc(c):
                                "start | etag | load | set_policy entry | set_policy exit | end?)" % (left,)
         if not out["error"]:
             out["final_decisions"] = su.decisions(final=True)
+            out["cache_failed"] = dict(getattr(su.cache, "failed", {}))
         out["final_loadable_doc"] = su.world.loadable_doc()
         out["final_content"] = su.world.content()
         out["src_etag_attr"] = getattr(su.src, "_etag", None) if c["kind"][0] == "http" else None
@@ -2224,9 +2303,11 @@ def conc_case(kind, order, evs_at, forces, nows, rng, fam, *, cfg=None, il=None,
             if j == 2 and k == 0 and mid is not None:
                 script.append(["ev", mid])
             script.append(["step", i, t, u])
+    spec = cache_spec(rng)
     return {"kind": kind, "cfg": cfg or rng.choice(CFGS[:5]), "initial_load": (rng.random() < 0.5) if il is None else il,
             "async": False, "p0": p0, "world": world, "script": script, "conc": True, "tail": tail,
-            "fam": fam, "flavour": fl, **({"ns": ns} if ns else {})}
+            "fam": fam, "flavour": fl, **({"ns": ns} if ns else {}),
+            **({"cache": spec} if spec else {})}
 
 
 def _orders(n):
@@ -2333,6 +2414,7 @@ def impl_run_stress(c):
         su.r.check_and_reload()
         out["final_policy"] = pol_id(su.guard.policy)
         out["final_decisions"] = su.decisions(final=True)
+        out["cache_failed"] = dict(getattr(su.cache, "failed", {}))
     except Exception as e:  # noqa: BLE001
         out["error"] = "harness error %s: %s" % (type(e).__name__, e)
     finally:
@@ -2345,7 +2427,8 @@ def gen_stress_cases(chk):
     kinds = [["gen", 1], ["file", True], ["s3", 1, None], ["http", False]]
     return [{"kind": kinds[k % len(kinds)], "cfg": [0.0, 0.125, 0.5], "initial_load": k % 2 == 0, "async": False, "p0": 1,
              "world": init_world(kinds[k % len(kinds)], 0), "script": [], "stress": True, "threads": 4, "rounds": 12,
-             "writes": 25, "fam": "stress", "flavour": {}} for k in range(n)]
+             "writes": 25, "fam": "stress", "flavour": {},
+             **({"cache": cache_spec(chk.rng, always=True)} if k % 3 == 2 else {})} for k in range(n)]
 
 
 def _check_stress(chk, c, out):
@@ -2408,6 +2491,12 @@ def check_cases(chk, cases, replay=False):
         chk.count("len:%s" % (len(c["script"]) if len(c["script"]) < 12 else "12+"))
         if c.get("ns"):
             chk.count("nonser:case may write documents json.dumps refuses")
+        if c.get("cache"):
+            chk.count("cache:failing backend, clear()=%s" % c["cache"].get("clear"))
+            if out.get("cache_failed"):
+                for k_, v_ in out["cache_failed"].items():
+                    if v_:
+                        chk.count("cache:histories in which %s() raised" % k_)
         if not c.get("stress") and not out.get("error"):
             if c.get("conc"):
                 lds = [x[3] for i in out["finish_order"] for x in out["threads"][i]["calls"] if x[0] == "load" and x[2] == "ok"]
@@ -2584,6 +2673,12 @@ def run(chk):
                 "without the reloader's lock is pre-empted there; if that ever happens all 924 interleavings of the "
                 "6 + 6 segments {start, etag, load, up to set_policy, set_policy, rest} x 13 write points are run as "
                 "well), and free-running threads judged on the safety clauses only. "
+                "In every family (the atomic_write schedules of c10_file included) one case in five (thorough: two in five) "
+                "builds the Guard with a decision cache that really stores and whose backend FAILS: clear() raising always / "
+                "the first time / every other time / from the second call on, get() and set() raising likewise, six "
+                "exception types; family 'cachefail': every history to length 2 (thorough 3) that publishes a new document x "
+                "the four clear() plans x 5 (9) source configurations; judged as every other history (clear() calls are "
+                "counted, failed ones included: one flush is asked for per installed document).  "
                 "Documents tell themselves apart by DECISIONS (document n permits exactly action a<n>): after every check "
                 "that returned True, whenever the engine of two overlapping checks shows another object or a check has "
                 "returned, and at the end of every history, probe requests are evaluated through Guard.evaluate_async and "
@@ -2648,6 +2743,9 @@ def run(chk):
         "run_in_executor runs the decision function at once in the calling thread (the engine awaits nothing but "
         "asyncio.to_thread); if a coroutine ever wants more of its loop the requests are repeated on a real asyncio loop "
         "(coverage.probe_requests counts both)",
+        "a failing decision cache is outside the model (its installation step is set_policy): the engine must go on without "
+        "the cache, so the model's ordinary behaviour is what a history with a FlakyCache is compared with, and the clauses "
+        "decide (a check that returned False left the engine untouched; a check that installed a document returned True)",
         "float arithmetic: inputs are dyadic, so the only roundings are `now + 0.2` and products with jitter_ratio 0.15; "
         "suppressed_until/backoff are compared with relative tolerance 1e-9",
         "composition with C16 (ReloadFile.v): ReloadFile.run_sys is exported by no runner, so the schedules of "
@@ -2663,6 +2761,7 @@ def run(chk):
     ]
     for k_ in range(6):
         n_selfcheck(k_)
+    CACHE_FRACTION[0] = 0.4 if chk.tier == "thorough" else 0.2
     corp = corpus_cases()
     check_cases(chk, corp)
     cases = gen_cases(chk)
